@@ -1,12 +1,16 @@
 """C05 - defs write at the call site; buffering, capture and calls with content.
 
-Streams (templates; attribute parsing / signatures are harness/c05_attrs.py's streams, called from here)
-  corr.structural     every generated template in the plain surface style and in sampled other styles (`self.`/`local.`
-                      calls, `<%self:d>`/`<%local:d>` tags with attribute arguments): real `Template.code`
-                      canonicalised (harness/target_canon.py) vs the S-expression of the Lean `codegenModule`;
+Streams (templates; attribute parsing / signatures are harness/c05_attrs.py's streams - oracle.attrs, oracle.attrs.multi,
+oracle.sig, corr.attrs*, corr.nsexpr, corr.sig* - called from here)
+  corr.structural     every generated template and every fixed witness (FIXED_SETS) in the plain surface style and in
+                      sampled other styles (`self.`/`local.` calls, `<%self:d>`/`<%local:d>` tags with attribute
+                      arguments): real `Template.code` canonicalised (harness/target_canon.py) vs the S-expression of
+                      the Lean `codegenModule`;
   corr.behaviour / corr.spec
                       the crash-free render and a few crash points per set: outcome, output, stack depths, counter -
                       real mako vs the Lean pipeline (codegen -> exec) and vs the Lean `Spec.render` (driver op `tgt`);
+                      a coverage line counts the blocks, includes, defs of a <%call> below control lines / in nested
+                      <%call>s and cached defs in these sets (c05_gen.refinement_constructs);
   oracle.render       NO Lean: output of the real template vs the stack-free reference renderer
                       (harness/ref_render.py: output is a returned value, `caller` a lexical argument), every sampled
                       surface style, plus the instrumented variant;
@@ -20,12 +24,21 @@ Streams (templates; attribute parsing / signatures are harness/c05_attrs.py's st
   oracle.rich_signatures  defaults, *args, **kw, keyword-only parameters and keyword body args (not expressible
                       in the Lean wire syntax) interacting with buffering / caller / content (harness/c05_rich.py);
   oracle.decorators / corr.deco   "a decorator= wraps the call": decorators that TRANSFORM the arguments, top-level and
-                      nested defs, every call path on which keywords reach the decorator (harness/c05_deco.py);
-  oracle.quirk.<name> one stream per recorded code-generation quirk, generator knob switched on (the main streams
-                      keep away from them): the oracle finds each on its own.
-Every violation is shrunk (gen_template.shrink_set) and classified by a *necessary feature* test: a recorded quirk
-feature is present in the minimal tree AND neutralising it makes the failure disappear; everything else is
-`render-differs-from-reference` / the identity site, i.e. an unknown violation.
+                      nested defs, every call path on which keywords reach the decorator; corr.deco: the real
+                      runtime._decorate_toplevel / _decorate_inline vs the Lean model for 7 families x 70 argument lists
+                      x 2 wrappers (harness/c05_deco.py);
+  oracle.quirk.<name> one stream per code-generation quirk (QUIRK_STREAM).  For the RECORDED ones (call_expr_args =
+                      F-C05-1b, return_in_buffered = F-C05-2) the generator knob is switched on - the main streams keep
+                      away from them - and the oracle finds each on its own.  For the ones REPAIRED in /repo
+                      (c05_gen.REPAIRED: nested_def_caller, decorated_call_def, nested_call_def_export - the last one
+                      runs fixed witnesses, QUIRK_WITNESSES) the stream is a regression detector: the feature is part of
+                      the main streams too, nothing is expected, and a violation is an unknown one.
+FIXED_SETS (defs of a <%call> below a control line and in a nested <%call>; blocks and an include; buffered blocks) run
+through every stream above in two surface styles with 6 crash points; they are the trees of the non-vacuity examples
+of Props/C05.lean, kept inside the generator's grammar.
+Every violation is shrunk (tree reduction with gen_template.shrinks' candidates) and classified by a *necessary feature*
+test: a recorded quirk feature is present in the minimal tree AND neutralising it makes the failure disappear;
+everything else is `render-differs-from-reference` / the identity site, i.e. an unknown violation.
 """
 from __future__ import annotations
 
@@ -42,33 +55,42 @@ from harness import c05_surface as SF
 from harness import c05_rt
 from harness.props import C13
 
-RULE = ("template sets (1-2 templates) from harness/c05_gen.py: top-level and nested defs (plain / buffered / "
-        "filter-only / decorated / cached and combinations); 'wrapper' defs using caller.body(args) zero, one or "
-        "several times (in % for, % if) and caller.<nested def>(); <%call expr args> sites supplying matching body "
-        "args and the nested defs the callee asks for, nested to depth 4, in loops, in other defs, in call bodies; "
-        "planted pattern caller.body() - call of another def - caller.body(); leaf defs called by name, capture(), "
-        "inside concatenations, as arguments, buffered defs as values; each tree written in several surface styles "
-        "(d(), self.d(), local.d(), <%call>, <%self:d attr=..>, <%local:d ..>); a case is non-trivial when a call "
-        "with content runs its body at least once or a buffered/filtered/decorated/cached def is entered; distinct "
-        "= distinct (template set, surface style, check)")
+RULE = ("template sets (1-2 templates, the second one included by the first) from harness/c05_gen.py: top-level and "
+        "nested defs (plain / buffered / filter-only / decorated / cached and combinations); 'wrapper' defs using "
+        "caller.body(args) zero, one or several times (in % for, % if) and caller.<nested def>(); <%call expr args> "
+        "sites supplying matching body args and the nested defs the callee asks for (directly in the content, below "
+        "its control lines, in nested <%call>s), nested to depth 4, in loops, in other defs, in call bodies; planted "
+        "pattern caller.body() - call of another def - caller.body(); leaf defs called by name, capture(), inside "
+        "concatenations, as arguments, buffered defs as values; <%block>s (anonymous anywhere, named at the top of a "
+        "template - one planted there in a quarter of the templates - with buffered / filter=) and <%include>; three "
+        "fixed witness sets (FIXED_SETS); each tree written in several surface styles (d(), self.d(), local.d(), "
+        "<%call>, <%self:d attr=..>, <%local:d ..>); a case is non-trivial when a call with content runs its body at "
+        "least once or a buffered/filtered/decorated/cached def is entered; distinct = distinct (template set, "
+        "surface style, check)")
 ASSUMPTIONS = [
     "templates are well-scoped, non-recursive, binders have unique names (gen_template invariants); the cache is a "
     "pass-through (cache_enabled=False; C17's subject); decorator bodies are user Python (a wrapping function)",
     "`caller` inside an anonymous <%block> is outside the quantifier (its grammar has defs and calls only): a block is "
     "a callable of its own, entered without content, so `caller` is None there - generator knob caller_in_block off",
-    "a def that is the same closure written two or three times into the generated code (defs under control lines / "
-    "in blocks of a <%call>) has no behavioural effect (same output, same exported names; only a decorator "
-    "expression is evaluated once per copy) - the structural canonicaliser merges the copies",
+    "a name bound by two `def` statements in one generated function has no behavioural effect and is only counted "
+    "(branch closure-written-more-than-once): since /repo 4a9e6c6 that is the replacement callable "
+    "write_cache_decorator writes after a cached nested def; the structural canonicaliser merges identical copies",
+    "an anonymous <%block> reads parameters only (of enclosing defs, of <%call> bodies further out) - not the "
+    "variables of a % for around it, not the body arguments of the <%call> it sits in; a named block reads no "
+    "variables: the generator's grammar, which the fixed witness sets keep to",
     "variables of a <%call> body (its args=, its loop variables) are not visible to the defs of the same <%call> "
     "(they are siblings of body(), as documented); nested defs read def parameters of enclosing defs only",
     "argument evaluation order and exceptions are C13's business: crash point -1 plus a few crash points per set",
     "template sets whose reference render visits more than 30000 nodes (nested loops x repeated caller.body()) are "
     "skipped and counted (branch generator:too-expensive-to-render)",
 ]
-TRUSTED_EXTRA = ["C05: harness/c05_gen.py (generator, quirk feature tests), harness/c05_surface.py (surface styles, "
-                 "instrumentation), harness/c05_rt.py (probe), harness/c05_rich.py (rich signatures: expected values "
-                 "from Python's own argument binding), harness/ref_render.py (reference renderer = oracle), "
-                 "harness/target_canon.py, harness/gen_template.py"]
+TRUSTED_EXTRA = ["C05: harness/c05_gen.py (generator, quirk feature tests, construct statistics), "
+                 "harness/c05_surface.py (surface styles, instrumentation), harness/c05_rt.py (probe, decorator "
+                 "families), harness/c05_rich.py (rich signatures: expected values from Python's own argument "
+                 "binding), harness/c05_deco.py (decorator oracle: the same Python decorator on a plain function), "
+                 "harness/c05_attrs.py (attribute / signature ground truth: Python's re, repr, ast and def binding), "
+                 "harness/ref_render.py (reference renderer = oracle), harness/target_canon.py, "
+                 "harness/gen_template.py"]
 DRIVER_OPS = ["tgt", "c05"]
 LEAN_EXTRA_TARGETS = ["MakoModel.Codegen.Spec"]
 
@@ -365,8 +387,8 @@ def static_coverage(ctx, bodies):
 
 
 def duplicate_closures(code):
-    """how often a closure def is written more than once into one function of the generated module (defs under
-    control lines / in blocks of a <%call>): no behavioural effect, counted for the evidence"""
+    """how often one generated function binds the same name with two `def` statements (since /repo 4a9e6c6: the
+    replacement callable after a cached nested def): no behavioural effect, counted for the evidence"""
     import ast
     n = 0
     def own_defs(stmts, acc):
